@@ -28,13 +28,20 @@ def main():
         for p in props:
             t0 = time.time()
             env = dict(os.environ)
+            tier = "quick"
+            if "@" in p:  # PROP@RUNS: the quick command with a larger run budget (what the thorough tier reaches)
+                p, runs = p.split("@")
+                env["XSIM_RUNS"] = runs
+                env["XSIM_TIME"] = env.get("XSIM_TIME", "600")
+                tier = "quick with XSIM_RUNS=%s" % runs
             r = sh("./check %s quick" % p, cwd=ROOT, env=env)
             viol = re.findall(r"^VIOLATION property=(\S+) replay=(\S+)", r.stdout, re.M)
             classes = sorted(set(re.findall(r"class=(\S+)", r.stdout + r.stderr)))
-            results[p] = {"tier": "quick", "exit": r.returncode, "caught": bool(viol) and r.returncode == 1,
+            key = p if tier == "quick" else p + "@" + env["XSIM_RUNS"]
+            results[key] = {"tier": tier, "exit": r.returncode, "caught": bool(viol) and r.returncode == 1,
                           "violations": len(viol), "classes": classes, "wall_s": round(time.time() - t0, 1),
                           "repo_head": sh("git -C %s rev-parse --short HEAD" % REPO).stdout.strip()}
-            print("%-28s %s %-7s %5.0fs %s" % (sid, p, "CAUGHT" if results[p]["caught"] else "MISSED",
+            print("%-28s %s %-7s %5.0fs %s" % (sid, key, "CAUGHT" if results[key]["caught"] else "MISSED",
                                                  time.time() - t0, ",".join(classes)), flush=True)
             if viol:
                 # keep one replay file next to the patch as the witness
@@ -42,7 +49,7 @@ def main():
                 if os.path.exists(src):
                     dst = os.path.join(d, "witness-%s.json" % p)
                     open(dst, "w").write(open(src).read())
-                    results[p]["witness"] = os.path.relpath(dst, ROOT)
+                    results[key]["witness"] = os.path.relpath(dst, ROOT)
     finally:
         sh("git -C %s checkout -- ." % REPO)
         # evidence and replay files written by these runs describe the patched tree: drop them
